@@ -1234,8 +1234,8 @@ func (check typecheck) callValue(n *node) error {
 			return nil
 		}
 	case callExpr:
-		if anc.child[0] != c {
-			// The results are checked against the parameters.
+		if anc.child[0] != c && !anc.child[0].isType(check.scope) {
+			// The results are checked against the parameters. A conversion takes a single value.
 			return nil
 		}
 	}
